@@ -17,7 +17,9 @@ import traceback
 from typing import Any, Dict, List, Optional, Tuple
 
 ROOT = os.path.dirname(os.path.dirname(os.path.abspath(__file__)))
-EVIDENCE_DIR = os.environ.get('VERIF_EVIDENCE_DIR') or os.path.join(ROOT, 'evidence')
+# evidence under /verif/evidence describes /repo itself; a run against a scratch copy (FSIC_REPO) writes elsewhere unless told otherwise
+_SCRATCH_RUN = bool(os.environ.get('FSIC_REPO')) and os.path.realpath(os.environ['FSIC_REPO']) != os.path.realpath('/repo')
+EVIDENCE_DIR = os.environ.get('VERIF_EVIDENCE_DIR') or os.path.join(ROOT, '.scratch/evidence' if _SCRATCH_RUN else 'evidence')
 REPLAY_DIR = os.environ.get('VERIF_REPLAY_DIR') or os.path.join(ROOT, 'replays')
 KNOWN = os.path.join(ROOT, 'known_findings.json')
 
